@@ -4,6 +4,7 @@
 // global id counters (every session in a world shifts them for the next) and
 // interleaving with other sessions.  Serves C14, C19 (+C15, C20).
 #include "core.h"
+#include "sigs.h"
 #include "mix_gen.h"
 #include "libvpsc/assertions.h"
 #include "libdialect/commontypes.h"
@@ -33,7 +34,7 @@ struct GraphSession : Session {
     }
     std::string guarded(const std::function<void()> &fn) {
         try { LibScope ls; fn(); }
-        catch (vpsc::CriticalFailure &f) { HarnessScope hs; return fmt("assert@%s:%d", strstr(f.file, "lib") ? strstr(f.file, "lib") : f.file, f.line); }
+        catch (vpsc::CriticalFailure &f) { HarnessScope hs; return assertSig(f); }
         catch (std::runtime_error &e) { HarnessScope hs; std::string w = e.what(); return "runtime_error:" + w.substr(0, 40); }
         catch (std::exception &e) { return "std::exception"; }
         catch (const char *) { return "char*"; }
